@@ -1,17 +1,18 @@
 (* M7 - the mini-language shared by Finder (pyflyby's scope analysis) and PySem (reference
    name-resolution semantics).  Names are ids allocated by the harness; the allocation is
-   monotone in Python's string order (ids 0..3 are reserved for the four spellings the code
-   tests for: they sort before every lower-case identifier).  No proofs here. *)
+   monotone in Python's string order (ids 0, 1000, 2000, 3000 are reserved for the four spellings the
+   code tests for; the other names get ids in the gaps).  No proofs here. *)
 From Coq Require Import NArith List Bool.
 Import ListNotations.
 
 Definition name := N.
 Definition dotted := list name.            (* a.b.c *)
 
+(* spaced so that the harness can give every other name an id in the right gap of the string order *)
 Definition n_star   : name := 0%N.         (* "*"          *)
-Definition n_all    : name := 1%N.         (* "__all__"    *)
-Definition n_class  : name := 2%N.         (* "__class__"  *)
-Definition n_future : name := 3%N.         (* "__future__" *)
+Definition n_all    : name := 1000%N.      (* "__all__"    *)
+Definition n_class  : name := 2000%N.      (* "__class__"  *)
+Definition n_future : name := 3000%N.      (* "__future__" *)
 
 (* assignment / for / with / comprehension targets: Name, Attribute chain rooted at a Name,
    Tuple or List of targets *)
